@@ -371,6 +371,42 @@ pub fn run_c09(ctx: &mut Ctx) {
             ctx.count("overflow_corner_cases");
         }
     }
+    // products exactly at, one below and one above 2^32-1 (= 3*5*17*257*65537): base costs that divide it, with the
+    // matching multiplier, neighbouring operand lengths and neighbouring multipliers
+    if !miri {
+        let cid = DIRECTED | id;
+        id += 1;
+        if ctx.want(cid) {
+            // (multiplier, cost-function bits, operand lengths)
+            let vectors: &[(u32, u8, &[usize])] = &[
+                (0x33_0032, 0x40, &[91, 91]),  // add-like, old model: base 1285
+                (0x33_0032, 0xc0, &[336]),     // concat-like: base 1285
+                (0x0f_000e, 0xc0, &[1364]),    // concat-like: base 4369
+                (0x11_0010, 0x40, &[814]),     // add-like, new model: base 3855
+            ];
+            for (mult, fnbits, lens) in vectors {
+                for dm in [-1i64, 0, 1] {
+                    for dl in [-1i64, 0, 1] {
+                        let m = (*mult as i64 + dm) as u32;
+                        let mut code = m.to_be_bytes()[1..].to_vec();
+                        code.push(*fnbits);
+                        let mut f = Forest::new();
+                        let items: Vec<Id> = lens.iter().enumerate().map(|(k, l)| {
+                            let len = if k == 0 { (*l as i64 + dl) as usize } else { *l };
+                            f.atom(&vec![0x5a; len])
+                        }).collect();
+                        let args = f.list(&items);
+                        for fl in [ClvmFlags::empty(), ClvmFlags::NEW_COST_MODEL] {
+                            log_c09(ctx, &f, &code, args, fl, u64::MAX, "op_unknown", cid);
+                            log_c09(ctx, &f, &code, args, fl, 11_000_000_000, "chia", cid);
+                            log_c09(ctx, &f, &code, args, fl, 11_000_000_000, "runtime", cid);
+                        }
+                        ctx.count("product_boundary_cases");
+                    }
+                }
+            }
+        }
+    }
     // Through the dialects: every opcode next to an assigned one is still an unknown operator. The whole last-byte
     // neighbourhood of the two 4-byte secp opcodes (and the adjacent multipliers), and every 1-byte opcode and every
     // 2-byte opcode with a zero first byte (non-minimal spellings of assigned opcodes), each with no arguments, atoms,
